@@ -55,8 +55,9 @@ def run(chk, tier):
     ]
     if thorough:
         plans = [
-            ("map", ["n1", "s1", "z", "nan"], ["v1", "v2"], 2, 4),
-            ("set", ["nan", "sl", "z", "o1"], ["v"], 2, 4),
+            # (4 keys x 4 live entries x 2 cursors was measured at > 18 GB per walker process and did not finish in 25 min)
+            ("map", ["n1", "s1", "z"], ["v1", "v2"], 2, 4),
+            ("set", ["nan", "sl", "o1"], ["v"], 2, 4),
             ("map", ["su", "y1", "big"], ["v1", "v2"], 3, 3),
             ("set", ["slu", "s1", "u"], ["v"], 2, 3),
         ]
